@@ -274,6 +274,10 @@ func (d *DataStore) GetInitialColumns() ([]string, ColumnList) {
 func (d *DataStore) GetWaitObject(req *Request) (*DataRow, bool) {
 	if req.Table == TableServices {
 		parts := strings.SplitN(req.WaitObject, ";", 2)
+		if len(parts) < 2 {
+			// a service is named <host>;<description>
+			return nil, false
+		}
 		obj, ok := d.index2[parts[0]][parts[1]]
 
 		return obj, ok
